@@ -93,6 +93,10 @@ def run_case(ids, decls, path, rnd, tmp):
                 out = IndividualParameters.from_pytorch(*ip.to_pytorch())
             else:
                 f = os.path.join(tmp, f"ip_{rnd.random()}.{'json' if path.startswith('json') else path}")
+                # the path has a past: another container (same identifiers, other values) was saved to and loaded from it before
+                decoy, _ = build(ids, decls, rnd)
+                decoy.save(f, **({"sort_keys": True} if path == "json_sorted" else {}))
+                IndividualParameters.load(f)
                 ip.save(f, **({"sort_keys": True} if path == "json_sorted" else {}))
                 out = IndividualParameters.load(f)
                 os.remove(f)
